@@ -149,6 +149,7 @@ pub fn c02(thorough: bool) -> Vec<Unit> {
     for n in if thorough { vec![4, 6, 7] } else { vec![4, 5] } {
         v.push(seq_unit(cfg("ack", "one topic, two subscriptions; unary Acknowledge incl. stale/unknown ids, deadlines crossed after the ack", base_setup(), alphabet.clone(), n)));
     }
+    v.push(reincarnation_unit(thorough));
     let stream_alphabet = vec![
         Op::Publish(T0, 1),
         Op::Publish(T0, 2),
@@ -167,6 +168,24 @@ pub fn c02(thorough: bool) -> Vec<Unit> {
         v.push(seq_unit(cfg("stream-ack", "acknowledgements and modifications sent as StreamingPull control messages on an open stream", base_setup(), stream_alphabet.clone(), n)));
     }
     v
+}
+
+/// A subscription is deleted and created again under the same name while a client still holds ack ids of the old one:
+/// those ids are stale for the new subscription (acknowledging / nacking them has no effect) and are not handed out again.
+pub fn reincarnation_unit(thorough: bool) -> Unit {
+    let alphabet = vec![
+        Op::Publish(T0, 1),
+        Op::Pull(S0, 1),
+        Op::Pull(S0, 10),
+        Op::DeleteSub(S0),
+        Op::CreateSub(S0, T0, 10),
+        Op::AckStale(S0),
+        Op::ModIds(S0, vec![IdKind::Stale], 0, false),
+        Op::ModIds(S0, vec![IdKind::Stale], 30, true),
+        Op::AdvPast,
+    ];
+    let setup = vec![Op::CreateTopic(T0), Op::CreateSub(S0, T0, 10), Op::Publish(T0, 2), Op::Pull(S0, 1)];
+    seq_unit(cfg("reincarnation", "a subscription holding deliveries is deleted and re-created under the same name: ack ids of the old one are stale for the new one (ack / nack / extension by unary call or stream message have no effect) and are never handed out again", setup, alphabet, if thorough { 6 } else { 5 }))
 }
 
 /// C04 redelivery at the deadline: several coexisting deliveries with different deadlines.
